@@ -12,6 +12,37 @@ from lib.core import Case
 
 ESIZES = [1, 2, 3, 4, 8, 16, 64, 12, 9, 20]   # incl. sizes above 8 that are not multiples of 8 (word-wise swap tails)
 SELECTORS = [0, 1, 2, 3, 4, 17, -1]          # the four named algorithms + out-of-range values
+RAWSWAP_SIZES = list(range(1, 25)) + [32, 64]  # cstl_swap by itself: every size up to 24 (typed cases 1/2/4/8, word tails), 32, 64
+
+
+def rawswap_expect(w):
+    """'rawswap sz i j b...' -> the array part (n*sz byte values) with elements i and j exchanged"""
+    sz, i, j = int(w[1]), int(w[2]), int(w[3])
+    mem = [int(x) for x in w[4:]]
+    n = len(mem) // sz - 1
+    ch = [mem[k * sz:(k + 1) * sz] for k in range(n)]
+    ch[i], ch[j] = ch[j], ch[i]
+    return [b for c in ch for b in c]
+
+
+def rawswap_cases(rnd, reps, counts):
+    """cstl_swap on raw memory: for every size, `reps` random memories of n elements + scratch (n from `counts`,
+    3 first) and ALL ordered pairs i != j (plus i == j for the typed sizes 1, 2, 4, 8, where the model says the
+    array is unchanged); one case per (size, repetition)"""
+    cases = []
+    for sz in RAWSWAP_SIZES:
+        for r in range(reps):
+            n = counts[r % len(counts)]
+            ops = []
+            for i in range(n):
+                for j in range(n):
+                    # a self-swap is defined for the typed sizes only (C11_swap_bytes_self): the memcpy path
+                    # would copy a range onto itself
+                    if i != j or sz in (1, 2, 4, 8):
+                        mem = [rnd.randrange(256) for _ in range((n + 1) * sz)]
+                        ops.append('rawswap %d %d %d %s' % (sz, i, j, ' '.join(map(str, mem))))
+            cases.append(Case('rawswap_%d_%d' % (sz, r), [], ops, 'random'))
+    return cases
 
 
 def tagmod(es):
@@ -69,11 +100,21 @@ class C11(Spec):
             'randomised quicksort, every distinguishable sequence of pivot draws (enumerated by the model, which reports '
             'how each draw is reduced); plus seeded adversarial large arrays. Compared: return value, final elements '
             '(key:tag, filler bytes verified; the C comparison callback returns -1/0/1, key differences or a varying magnitude per the cmpmode header - the model sees signs only), complete log of comparison/swap/rand callback calls as index pairs. '
+            'cstl_swap by itself (rawswap): every element size 1..24, 32, 64 on random bytes, all ordered pairs of distinct '
+            'elements, in an exact-size malloc block; array and scratch bytes compared with the byte-level model, array bytes '
+            'judged by the oracle. For arrays of at most 512 bytes the model line of sort/reverse is decoded from the bytes '
+            'obtained by replaying the swap log with the byte-level cstl_swap. '
             'non-trivial = at least two completed operations; distinct = distinct (header, operations) text')
     trusted = ['modelled, not verified: the C statements of src/array.c lines 15-361 are transcribed by hand into '
                'SortModel.v (lists with checked indices; size_t indices as nat, ssize_t/int indices as Z with explicit '
-               'width); cstl_swap is modelled as an exchange of two list positions (its byte-level effect is compared '
-               'on explored inputs for element sizes 1,2,3,4,8,9,12,16,20,64)',
+               'width); cstl_swap is transcribed a second time at byte level in SwapModel.v (memory = list of bytes, memcpy '
+               'byte by byte with overlap = undefined, typed assignments as w-byte load/store) and PROVED to refine the '
+               'exchange of two list positions used by SortModel.v (C11_swap_bytes, C11_replay_bytes, C11_sort_bytes); '
+               'that transcription is tied to the header by the rawswap runs (sizes 1..24, 32, 64) and by decoding the '
+               'sort/reverse results from the replayed bytes',
+               'not modelled at byte level: alignment of the typed accesses of cstl_swap, the effective-type (strict '
+               'aliasing) rule, wrap-around of at * size in size_t, the value representation of uintN_t (assumed to have no '
+               'padding bits, as the standard requires of these types)',
                'arrays of more than 2^31 elements (F11) cannot be materialised in the model: for those the runner prints '
                'what theorems reverse_correct / search_correct state and the non-sanitized driver is compared with that']
     assumptions_text = ['the comparison callback is a total preorder (sign-antisymmetric, transitive), element size >= 1',
@@ -99,6 +140,25 @@ class C11(Spec):
                 return None
             if line == 'precond':
                 return None
+            if name == 'rawswap':
+                # cstl_swap by itself: the array part must be the input with elements i and j exchanged,
+                # byte for byte; the scratch (after '~') is unspecified by the header and ignored here
+                if not line.startswith('ok'):
+                    return ('rawswap:%s' % line.split()[0],
+                            'operation %d (cstl_swap on %s-byte elements %s and %s) ended in "%s" (sanitizer report: access '
+                            'outside array + scratch, or crash)' % (i, w[1], w[2], w[3], line))
+                try:
+                    got = [int(x) for x in line.split('|')[1].split()]
+                except Exception:
+                    return ('rawswap:garbled', 'unparsable line %r' % line)
+                exp = rawswap_expect(w)
+                if got != exp:
+                    bad = [k for k in range(min(len(got), len(exp))) if got[k] != exp[k]]
+                    return ('rawswap:bytes-wrong',
+                            'operation %d: cstl_swap(x = element %s, y = element %s, t, sz = %s) on %d elements: array bytes '
+                            'afterwards differ from the input with the two elements exchanged at byte offsets %s '
+                            '(got %s, expected %s)' % (i, w[2], w[3], w[1], len(exp) // int(w[1]), bad[:8] or 'length', got, exp))
+                continue
             if not line.startswith('ok') and base.startswith('big'):
                 return ('%s:%s' % (base[3:], line.split()[0]),
                         '%s (one-byte elements) ended in "%s" (crash or time-out)' % (op, line))
@@ -216,6 +276,8 @@ class C11(Spec):
     def random_cases(self, tier, seed):
         rnd = random.Random(seed * 104729 + 11)
         cases = []
+        # cstl_swap by itself on raw bytes (own generator stream: the cases below keep their draws)
+        cases += rawswap_cases(random.Random(seed * 7919 + 1103), 1 if tier == 'quick' else 12, [3, 2, 4, 5])
 
         def patterns(n):
             yield 'sorted', sorted(rnd.randrange(256) for _ in range(n))
@@ -434,11 +496,15 @@ MANIFEST = dict(
          'comparison preorder and selector (QUICK, QUICK_M, HEAP, any out-of-range value) the sort returns, the result is '
          'a sorted permutation, no access leaves the (sub)array; QUICK_R the same for every rand() whenever it returns, '
          'with termination under the stated no-endless-retry hypothesis; binary search / linear find / reverse meet their '
-         'specifications for count <= SSIZE_MAX. Tied to the C code on every run by differential execution '
+         'specifications for count <= SSIZE_MAX; byte level: cstl_swap (all sizes) exchanges exactly the two elements in the '
+         'byte image of the array and touches nothing outside array + scratch, so the bytes after a sort are the '
+         'concatenation of the element-level result. Tied to the C code on every run by differential execution '
          '(all small arrays, every pivot-draw sequence, adversarial large inputs; 10 element sizes) under ASan/UBSan, '
          'comparing the complete callback log.',
     note='trusted: Coq kernel; hand transcription of array.c into SortModel.v validated only by the correspondence run; '
-         'size_t index arithmetic modelled in nat (no wrap below 2^63 elements); byte-level cstl_swap compared, not proved; '
+         'size_t index arithmetic modelled in nat (no wrap below 2^63 elements); byte-level cstl_swap (SwapModel.v: memcpy / '
+         'typed load-store over a byte list) proved to refine the element-level swap and compared with the header for sizes '
+         '1..24, 32, 64 - alignment and effective-type rules not modelled; '
          'extraction (ExtrOcamlBasic) + OCaml runner; C driver; rand() intercepted with --wrap',
     technique='Coq proof (loop invariants, induction on fuel/length, Permutation/Sorted) + model/code differential correspondence',
     design='6 (C11)')
